@@ -1,6 +1,9 @@
 package zzverif
 
-import "sync"
+import (
+	"sync"
+	"time"
+)
 
 // Native cooperative scheduler for schedule replay.  The replay overlay inserts zzverif.Yield()
 // before every lock acquisition of the code under test; with a recorded schedule only the thread
@@ -90,3 +93,33 @@ func Yield() {
 	}
 	parMu.Unlock()
 }
+
+// ---- background goroutines started by the code under test (stub set "bgo") -----------------------------------
+//
+// Under gosym a `go` statement is recorded and zzverif.Background(i, n) runs that goroutine through n wake-ups
+// from time.Sleep.  Natively the goroutine really runs; the replay overlay turns its time.Sleep into
+// zzverif.Sleep, which parks it until Background wakes it, so that it takes exactly the recorded steps.
+
+var bgIdle = make(chan chan struct{})
+var bgParked []chan struct{}
+
+// Sleep parks the calling (background) goroutine until the harness wakes it; the clock then moves on.
+func Sleep(d time.Duration) {
+	wake := make(chan struct{})
+	bgIdle <- wake
+	<-wake
+	AdvanceClock()
+}
+
+// Background lets the i-th goroutine started by the code under test take n wake-ups and waits until it sleeps again.
+// (Natively goroutines are not told apart: harnesses use it with a single background goroutine.)
+func Background(i, n int) {
+	for k := 0; k < n; k++ {
+		w := <-bgIdle
+		w <- struct{}{}
+	}
+	bgParked = append(bgParked, <-bgIdle)
+}
+
+// BackgroundCount: how many goroutines the code under test has started (0 natively: not observable).
+func BackgroundCount() int { return 0 }
